@@ -424,6 +424,154 @@ func (c *ctx) runRPCChain(ch rpcChain, out chan<- batch) {
 			}
 		}
 	}
+	c.rpcEnumerateStorageKeys(gr, g, ch, hs, out)
+}
+
+// rpcEnumerateStorageKeys: EVERY sequence of at most four contracts_storage_keys entries over three contracts
+// (merging, order of first appearance, repeated keys), at the head of the finished chain, the three handler
+// copies in turn; the whole response is compared with the model (which is proved to verify).
+func (c *ctx) rpcEnumerateStorageKeys(r *lib.RNG, g *lib.ChainGen, chain rpcChain, hs *rpcHandlers, out chan<- batch) {
+	res := c.res
+	st := g.HeadState()
+	head := g.Head()
+	var pool []felt.Felt
+	for _, a := range sortedFelts(st.Contracts) {
+		if len(st.Contracts[a].Storage) > 0 && len(pool) < 2 {
+			pool = append(pool, a)
+		}
+	}
+	pool = append(pool, hexFelt(bitsToBig(randBits(r, 251)).Text(16))) // an address without state
+	if len(pool) < 3 {
+		res.Hit("rpc:storage-keys-enumeration:skipped-fewer-than-two-contracts-with-storage")
+		return
+	}
+	slotsOf := func(a felt.Felt) []felt.Felt {
+		var ks []felt.Felt
+		if ac := st.Contracts[a]; ac != nil {
+			for _, k := range sortedFelts(ac.Storage) {
+				if len(ks) < 2 {
+					ks = append(ks, k)
+				}
+			}
+		}
+		return append(ks, *lib.F(uint64(1 + r.Intn(3))))
+	}
+	var mb batch
+	n := 0
+	var rec func(seq []int)
+	rec = func(seq []int) {
+		if len(seq) > 0 {
+			version := rpcVersions[n%len(rpcVersions)]
+			n++
+			var storage []rpcStorageKeysJSON
+			for _, ci := range seq {
+				a := pool[ci]
+				sl := slotsOf(a)
+				var keys []felt.Felt
+				for j := 0; j < 1+r.Intn(3); j++ {
+					keys = append(keys, lib.Pick(r, sl))
+				}
+				storage = append(storage, rpcStorageKeysJSON{Contract: "0x" + fhex(&a), Keys: feltsHex(keys)})
+			}
+			// requested contracts: sometimes the same ones, in another order, with a repetition
+			var contracts []felt.Felt
+			if n%2 == 0 {
+				for i := len(seq) - 1; i >= 0; i-- {
+					contracts = append(contracts, pool[seq[i]])
+				}
+			}
+			raw, sets, rpcErr, err := callStorageProof(version, hs, blockRef{Kind: "latest"}, nil, contracts, storage)
+			req := rpcRequest{Version: version, NewState: chain.DstNew, Block: head.Block.Number, Protocol: head.Block.ProtocolVersion,
+				Contracts: feltsHex(contracts), Storage: storage, Chain: chain, BlockID: blockRef{Kind: "latest"}}
+			if err != nil || rpcErr != nil {
+				res.Violate(lib.Violation{Sig: "rpc-" + version + ":request-fails", What: fmt.Sprintf("starknet_getStorageProof fails: %v %v", err, rpcErr), Replay: req})
+				return
+			}
+			var resp jStorageProof
+			if err := json.Unmarshal(raw, &resp); err != nil {
+				res.Violate(lib.Violation{Sig: "rpc-" + version + ":response-not-decodable", What: err.Error(), Replay: req})
+				return
+			}
+			mask := leafMask(st, contracts)
+			canon, cerr := canonResponse(&resp, mask)
+			if cerr != nil {
+				res.Violate(lib.Violation{Sig: "rpc-" + version + ":storage-proof-malformed", What: cerr.Error(), Replay: req})
+				return
+			}
+			// oracle, independent of the model: one mapping per distinct contract in the order of first
+			// appearance, and the mapping of a contract with storage starts from that contract's storage root
+			var distinct []felt.Felt
+			seen := map[felt.Felt]bool{}
+			for _, ci := range seq {
+				if !seen[pool[ci]] {
+					seen[pool[ci]] = true
+					distinct = append(distinct, pool[ci])
+				}
+			}
+			if len(resp.ContractsStorageProofs) != len(distinct) {
+				res.Violate(lib.Violation{Sig: "rpc-" + version + ":storage-proofs-count",
+					What:   fmt.Sprintf("%d contracts_storage_proofs for %d distinct contracts", len(resp.ContractsStorageProofs), len(distinct)),
+					Replay: req})
+			} else {
+				for i, a := range distinct {
+					root := absStorageRoot(st.Contracts[a])
+					p, perr := nodesToProof(resp.ContractsStorageProofs[i])
+					if perr == nil && !root.IsZero() && !mappingHasRoot(p, &root) {
+						res.Violate(lib.Violation{Sig: "rpc-" + version + ":storage-proofs-not-in-request-order",
+							What:   "contracts_storage_proofs[i] is not the proof for the i-th distinct contract of contracts_storage_keys",
+							Replay: req})
+						break
+					}
+					if perr != nil {
+						continue
+					}
+					// every key requested for this contract, in whichever entry, verifies against the contract's
+					// storage root in ITS mapping (independent verifier)
+					done := map[felt.Felt]bool{}
+					for si, ci := range seq {
+						if pool[ci] != a {
+							continue
+						}
+						for _, kh := range storage[si].Keys {
+							key := hexFelt(strings.TrimPrefix(kh, "0x"))
+							if done[key] {
+								continue
+							}
+							done[key] = true
+							want := felt.Zero
+							if ac := st.Contracts[a]; ac != nil {
+								want = ac.Storage[key]
+							}
+							var as *trie.ProofNodeSet
+							if i < len(sets.storage) {
+								as = sets.storage[i]
+							}
+							c.rpcVerifyKey(&mb, "rpc-"+version, "storage-proof", "ped", &root, &key, p, &want, as)
+						}
+					}
+				}
+			}
+			blk := "latest - " + fmt.Sprint(head.Block.Number) + " -"
+			line := rpcModelRequest(!chain.DstNew, blk, st, nil, contracts, storage)
+			mb.checks = append(mb.checks, check{line: line, impl: canon, sig: "rpc-" + version + ":response-model:storage-keys-enumeration",
+				norm: func(m string) string { return maskLeaves(m, mask) },
+				replay: func() any {
+					return map[string]any{"section": "rpc", "request": req, "what": "response against the model of StorageProof"}
+				}})
+			res.Case(fmt.Sprintf("rpc-enum/%s/%v/%d/%v", version, chain.DstNew, chain.Seed, seq), true)
+			res.Hit("rpc:storage-keys-enumeration")
+		}
+		if len(seq) == 4 {
+			return
+		}
+		for ci := 0; ci < 3; ci++ {
+			rec(append(append([]int{}, seq...), ci))
+		}
+	}
+	rec(nil)
+	if len(mb.checks) > 0 {
+		out <- mb
+	}
 }
 
 func (c *ctx) rpcQuery(r *lib.RNG, g *lib.ChainGen, version string, chain rpcChain,
@@ -505,6 +653,45 @@ func (c *ctx) rpcQuery(r *lib.RNG, g *lib.ChainGen, version string, chain rpcCha
 	isHead := ref.Kind == "latest" || (ref.Kind == "number" && ref.Number == head.Block.Number) ||
 		(ref.Kind == "hash" && ref.Hash == fhex(head.Block.Hash))
 	res.Hit("rpc:block-id:" + ref.Kind + fmt.Sprintf(":head=%v", isHead))
+	// the request for the Lean model of the handler (`isBlockSupported` + `storageProof`)
+	blkTok := func() string {
+		kind, arg, resolved := ref.Kind, "-", "-"
+		switch ref.Kind {
+		case "number":
+			arg = fmt.Sprint(ref.Number)
+		case "hash":
+			arg = ref.Hash
+			for _, bd := range g.Bundles {
+				if fhex(bd.Block.Hash) == ref.Hash {
+					resolved = fmt.Sprint(bd.Block.Number)
+				}
+			}
+		case "l1_accepted":
+			if version == "v8" { // rpc/v8 has `pending` only: the harness sends that
+				kind = "pre_confirmed"
+			}
+		}
+		return kind + " " + arg + " " + fmt.Sprint(head.Block.Number) + " " + resolved
+	}()
+	// leaf data of an address that has state but was never deployed (system contracts 0x1 / 0x2): whether
+	// ContractClassHash finds it depends on the state backend, not on this handler
+	mask := leafMask(st, contracts)
+	modelCheck := func(storageReq []rpcStorageKeysJSON, impl string, what string) check {
+		line := rpcModelRequest(!newState, blkTok, st, classes, contracts, storageReq)
+		rq := req
+		rq.Storage = storageReq
+		return check{line: line, impl: impl, sig: tag + ":response-model:" + what,
+			norm: func(m string) string { return maskLeaves(m, mask) },
+			replay: func() any {
+				return map[string]any{"section": "rpc", "request": rq, "what": "response against the model of StorageProof"}
+			}}
+	}
+	var mb batch
+	defer func() {
+		if len(mb.checks) > 0 {
+			out <- mb
+		}
+	}()
 	// malformed storage key lists must be refused, not answered
 	if r.Chance(1, 10) {
 		bad := append([]rpcStorageKeysJSON{}, storage...)
@@ -513,12 +700,23 @@ func (c *ctx) rpcQuery(r *lib.RNG, g *lib.ChainGen, version string, chain rpcCha
 		} else {
 			bad = append(bad, rpcStorageKeysJSON{Contract: "0x1", Keys: nil})
 		}
-		if rawBad, _, e1, e2 := callStorageProof(version, hs, ref, classes, contracts, bad); e1 == nil && e2 == nil && rawBad != nil {
+		rawBad, _, e1, e2 := callStorageProof(version, hs, ref, classes, contracts, bad)
+		if e1 == nil && e2 == nil && rawBad != nil {
 			res.Violate(lib.Violation{Sig: tag + ":malformed-storage-keys-answered", What: "a contracts_storage_keys entry without contract_address / without storage_keys is answered with a proof instead of InvalidParams", Replay: req})
+		}
+		if e2 == nil {
+			implBad := rpcErrClass(e1)
+			if e1 == nil {
+				implBad = "answered"
+			}
+			mb.checks = append(mb.checks, modelCheck(bad, implBad, "malformed-storage-keys"))
 		}
 		res.Hit("rpc:malformed-storage-keys")
 	}
 	raw, sets, rpcErr, err := callStorageProof(version, hs, ref, classes, contracts, storage)
+	if err == nil && rpcErr != nil {
+		mb.checks = append(mb.checks, modelCheck(storage, rpcErrClass(rpcErr), "refused"))
+	}
 	if !isHead {
 		if err == nil && rpcErr == nil {
 			res.Violate(lib.Violation{Sig: tag + ":proof-served-for-a-block-that-is-not-the-head",
@@ -541,6 +739,11 @@ func (c *ctx) rpcQuery(r *lib.RNG, g *lib.ChainGen, version string, chain rpcCha
 	replay := func(what string, extra any) any {
 		return map[string]any{"section": "rpc", "request": req, "what": what, "detail": extra, "response": json.RawMessage(raw)}
 	}
+	// --- the whole response against the model: roots, every node of every mapping in order, leaf data
+	if canon, cerr := canonResponse(&resp, mask); cerr == nil {
+		mb.checks = append(mb.checks, modelCheck(storage, canon, "served"))
+		res.Hit("rpc:response-model:served")
+	}
 	// --- global roots
 	contractsRoot, classesRoot := hexFelt(unhex(resp.GlobalRoots.ContractsTreeRoot)), hexFelt(unhex(resp.GlobalRoots.ClassesTreeRoot))
 	if got := globalRoot(&contractsRoot, &classesRoot, head.Block.ProtocolVersion); !got.Equal(head.Block.GlobalStateRoot) {
@@ -558,39 +761,7 @@ func (c *ctx) rpcQuery(r *lib.RNG, g *lib.ChainGen, version string, chain rpcCha
 	// verify one key in one node mapping with the independent verifier (and juno's legacy verifier
 	// as correspondence, since rpc.Node.AsProofNode targets it)
 	verify := func(kind, hash string, root *felt.Felt, key *felt.Felt, p Proof, want *felt.Felt, extra any) {
-		kb := bitsOf(key, 251)
-		sig := tag + ":" + kind
-		rootHex := fhex(root)
-		mk := func() any {
-			return verifyReplay{Section: "rpc", Check: sig, Verifier: "legacy", Hash: hash, Root: rootHex, Key: kb, KeyFelt: "0x" + fhex(key),
-				Proof: p, Truth: fhex(want), Tamper: "none", Node: -1, Honest: true}
-		}
-		hf := hashFnOf(hash)
-		b.checks = append(b.checks,
-			check{line: "vL 00111 " + rootHex + " " + kb + p.toks(hf), truth: fhex(want), honest: true, independent: true, sig: sig, replay: mk},
-			check{line: "v2 00111 " + rootHex + " " + kb + p.toks(hf), truth: fhex(want), honest: true, independent: true, sig: sig, replay: mk},
-		)
-		// correspondence with the real legacy verifier; its rejection of the empty trie is the known
-		// finding reported by the trie section, not repeated here
-		impl := realVerify("legacy", hf, root, kb, p)
-		b.checks = append(b.checks, check{line: c.modelLine("legacy", rootHex, kb, p, hash), impl: impl, sig: sig, replay: mk})
-		// the same mapping converted by the RPC node types' own AsProofNode, through the real verifier
-		if as, ok := extra.(*trie.ProofNodeSet); ok && as != nil {
-			var got felt.Felt
-			var verr error
-			perr, panicked, _ := lib.Try(func() error { got, verr = trie.VerifyProof(root, key, as, hf); return nil })
-			if panicked || verr != nil || !got.Equal(want) {
-				res.Violate(lib.Violation{Sig: sig + ":as-proof-node-conversion-does-not-verify",
-					What:   fmt.Sprintf("nodes converted with AsProofNode: trie.VerifyProof gives %s / %v / %v, expected %s", got.String(), verr, perr, want.String()),
-					Replay: mk()})
-			}
-			res.Hit("rpc:as-proof-node:" + kind)
-		}
-		if want.IsZero() {
-			res.Hit("rpc:" + kind + ":absent")
-		} else {
-			res.Hit("rpc:" + kind + ":present")
-		}
+		c.rpcVerifyKey(&b, tag, kind, hash, root, key, p, want, extra)
 	}
 	// --- classes
 	if p, err := nodesToProof(resp.ClassesProof); err != nil {
@@ -762,4 +933,271 @@ func mappingHasRoot(p Proof, root *felt.Felt) bool {
 		}
 	}
 	return false
+}
+
+// ---- the response against the Lean model of Handler.StorageProof (`storageProof` in ModelR5.lean) ----------
+
+// rpcModelRequest renders the head state (as far as the request touches it) and the request for the driver's
+// `rpc` op. legacy = the state backend hands out *trie.Trie (deprecated state), else *trie2.Trie.
+func rpcModelRequest(legacy bool, blk string, st *lib.AbsState, classes, contracts []felt.Felt, storage []rpcStorageKeysJSON) string {
+	// blk = "<kind> <number|hash|-> <chain height> <number the hash resolves to|->"
+	var sb strings.Builder
+	sb.WriteString("rpc ")
+	if legacy {
+		sb.WriteString("1")
+	} else {
+		sb.WriteString("0")
+	}
+	sb.WriteString(" 251 " + blk)
+	kvTok := func(kv KV) string { return " " + kv.K + "=" + kv.V }
+	// classes trie (Poseidon): sierra class hash -> H(CONTRACT_CLASS_LEAF_V0, compiled class hash)
+	var ckvs []KV
+	for _, ch := range sortedFelts(st.Casm) {
+		leaf := absClassLeaf(st, ch)
+		ckvs = append(ckvs, KV{K: bitsOf(&ch, 251), V: fhex(&leaf)})
+	}
+	sb.WriteString(" | C")
+	for _, kv := range ckvs {
+		sb.WriteString(kvTok(kv))
+	}
+	_, fq := refRootFacts(crypto.Poseidon, ckvs, true)
+	// contracts trie (Pedersen): address -> contract leaf
+	var tkvs []KV
+	for _, a := range sortedFelts(st.Contracts) {
+		leaf := absContractLeaf(st, a)
+		if !leaf.IsZero() {
+			tkvs = append(tkvs, KV{K: bitsOf(&a, 251), V: fhex(&leaf)})
+		}
+	}
+	sb.WriteString(" | T")
+	for _, kv := range tkvs {
+		sb.WriteString(kvTok(kv))
+	}
+	_, fp := refRootFacts(crypto.Pedersen, tkvs, true)
+	// the contracts the request touches: info and storage tries
+	touched := map[felt.Felt]bool{}
+	var order []felt.Felt
+	touch := func(a felt.Felt) {
+		if !touched[a] {
+			touched[a] = true
+			order = append(order, a)
+		}
+	}
+	for _, a := range contracts {
+		touch(a)
+	}
+	for _, sk := range storage {
+		if sk.Contract != "" {
+			touch(hexFelt(strings.TrimPrefix(sk.Contract, "0x")))
+		}
+	}
+	sb.WriteString(" | I")
+	for _, a := range order {
+		if ac := st.Contracts[a]; ac != nil {
+			sb.WriteString(" " + fhex(&a) + ":" + fhex(&ac.Class) + ":" + fhex(&ac.Nonce))
+		}
+	}
+	for _, a := range order {
+		ac := st.Contracts[a]
+		if ac == nil || len(ac.Storage) == 0 {
+			continue
+		}
+		var skvs []KV
+		for _, k := range sortedFelts(ac.Storage) {
+			v := ac.Storage[k]
+			skvs = append(skvs, KV{K: bitsOf(&k, 251), V: fhex(&v)})
+		}
+		sb.WriteString(" | S " + fhex(&a))
+		for _, kv := range skvs {
+			sb.WriteString(kvTok(kv))
+		}
+		_, f := refRootFacts(crypto.Pedersen, skvs, true)
+		fp = append(fp, f...)
+	}
+	sb.WriteString(" | Q")
+	for i := range classes {
+		sb.WriteString(" " + fhex(&classes[i]))
+	}
+	sb.WriteString(" | A")
+	for i := range contracts {
+		sb.WriteString(" " + fhex(&contracts[i]))
+	}
+	for _, sk := range storage {
+		sb.WriteString(" | K ")
+		if sk.Contract == "" {
+			sb.WriteString("-")
+		} else {
+			sb.WriteString(unhex(sk.Contract))
+		}
+		for _, k := range sk.Keys {
+			sb.WriteString(" " + unhex(k))
+		}
+	}
+	sb.WriteString(" | FP")
+	for _, f := range fp {
+		sb.WriteString(" " + f)
+	}
+	sb.WriteString(" | FQ")
+	for _, f := range fq {
+		sb.WriteString(" " + f)
+	}
+	return sb.String()
+}
+
+// canonWNodes renders a node mapping the way the driver's `rpc` answer does.
+func canonWNodes(p Proof) string {
+	var sb strings.Builder
+	for i := range p {
+		n := &p[i]
+		if n.Kind == "B" {
+			sb.WriteString(" B:" + n.Key + ":" + n.L.F + ":" + n.R.F)
+		} else {
+			sb.WriteString(" E:" + n.Key + ":" + dashIfEmpty(n.Path) + ":" + n.C.F)
+		}
+	}
+	return sb.String()
+}
+
+// canonResponse renders a decoded response in the format of the driver's `rpc` answer; leaf entries at the
+// positions in `mask` are not specified (an address with state that was never deployed) and rendered `?`.
+func canonResponse(resp *jStorageProof, mask map[int]bool) (string, error) {
+	var sb strings.Builder
+	sb.WriteString("ok roots " + unhex(resp.GlobalRoots.ContractsTreeRoot) + " " + unhex(resp.GlobalRoots.ClassesTreeRoot))
+	cp, err := nodesToProof(resp.ClassesProof)
+	if err != nil {
+		return "", err
+	}
+	sb.WriteString(" cp" + canonWNodes(cp))
+	np, err := nodesToProof(resp.ContractsProof.Nodes)
+	if err != nil {
+		return "", err
+	}
+	sb.WriteString(" np" + canonWNodes(np))
+	sb.WriteString(" ld")
+	for i, ld := range resp.ContractsProof.LeavesData {
+		switch {
+		case mask[i]:
+			sb.WriteString(" ?")
+		case ld == nil:
+			sb.WriteString(" n")
+		default:
+			sr := "-"
+			if ld.StorageRoot != nil {
+				sr = unhex(*ld.StorageRoot)
+			}
+			sb.WriteString(" " + unhex(ld.ClassHash) + ":" + unhex(ld.Nonce) + ":" + sr)
+		}
+	}
+	for _, m := range resp.ContractsStorageProofs {
+		sp, err := nodesToProof(m)
+		if err != nil {
+			return "", err
+		}
+		sb.WriteString(" sp" + canonWNodes(sp))
+	}
+	return sb.String(), nil
+}
+
+// leafMask: the positions (in the de-duplicated list) of requested contracts whose leaf data is not specified.
+func leafMask(st *lib.AbsState, contracts []felt.Felt) map[int]bool {
+	mask := map[int]bool{}
+	seen := map[felt.Felt]bool{}
+	i := 0
+	for _, a := range contracts {
+		if seen[a] {
+			continue
+		}
+		seen[a] = true
+		if st.Contracts[a] != nil && !st.Deployed[a] {
+			mask[i] = true
+		}
+		i++
+	}
+	return mask
+}
+
+// maskLeaves replaces the leaf entries at the masked positions of a model answer by `?`.
+func maskLeaves(ans string, mask map[int]bool) string {
+	if len(mask) == 0 || !strings.HasPrefix(ans, "ok ") {
+		return ans
+	}
+	w := strings.Fields(ans)
+	in, idx := false, 0
+	for i, t := range w {
+		switch {
+		case t == "ld":
+			in, idx = true, 0
+		case t == "sp" || t == "cp" || t == "np":
+			in = false
+		case in:
+			if mask[idx] {
+				w[i] = "?"
+			}
+			idx++
+		}
+	}
+	return strings.Join(w, " ")
+}
+
+// rpcVerifyKey: one requested key against one node mapping of a response — the independent (Lean, strict)
+// verifiers, juno's legacy verifier as correspondence, and the mapping converted by the RPC types' own
+// AsProofNode through the real trie.VerifyProof.
+func (c *ctx) rpcVerifyKey(b *batch, tag, kind, hash string, root *felt.Felt, key *felt.Felt, p Proof, want *felt.Felt, extra any) {
+	res := c.res
+	kb := bitsOf(key, 251)
+	sig := tag + ":" + kind
+	rootHex := fhex(root)
+	mk := func() any {
+		return verifyReplay{Section: "rpc", Check: sig, Verifier: "legacy", Hash: hash, Root: rootHex, Key: kb, KeyFelt: "0x" + fhex(key),
+			Proof: p, Truth: fhex(want), Tamper: "none", Node: -1, Honest: true}
+	}
+	hf := hashFnOf(hash)
+	b.checks = append(b.checks,
+		check{line: "vL 00111 " + rootHex + " " + kb + p.toks(hf), truth: fhex(want), honest: true, independent: true, sig: sig, replay: mk},
+		check{line: "v2 00111 " + rootHex + " " + kb + p.toks(hf), truth: fhex(want), honest: true, independent: true, sig: sig, replay: mk},
+	)
+	// correspondence with the real legacy verifier; its rejection of the empty trie is the known
+	// finding reported by the trie section, not repeated here
+	impl := realVerify("legacy", hf, root, kb, p)
+	b.checks = append(b.checks, check{line: c.modelLine("legacy", rootHex, kb, p, hash), impl: impl, sig: sig, replay: mk})
+	// the same mapping converted by the RPC node types' own AsProofNode, through the real verifier
+	if as, ok := extra.(*trie.ProofNodeSet); ok && as != nil {
+		var got felt.Felt
+		var verr error
+		perr, panicked, _ := lib.Try(func() error { got, verr = trie.VerifyProof(root, key, as, hf); return nil })
+		if panicked || verr != nil || !got.Equal(want) {
+			res.Violate(lib.Violation{Sig: sig + ":as-proof-node-conversion-does-not-verify",
+				What:   fmt.Sprintf("nodes converted with AsProofNode: trie.VerifyProof gives %s / %v / %v, expected %s", got.String(), verr, perr, want.String()),
+				Replay: mk()})
+		}
+		res.Hit("rpc:as-proof-node:" + kind)
+	}
+	if want.IsZero() {
+		res.Hit("rpc:" + kind + ":absent")
+	} else {
+		res.Hit("rpc:" + kind + ":present")
+	}
+}
+
+// rpcErrClass: the error of a refused request in the model's terms.
+func rpcErrClass(e *jsonrpc.Error) string {
+	if e == nil {
+		return "ok"
+	}
+	switch e.Code {
+	case 24:
+		return "err:block:notfound"
+	case 42:
+		return "err:block:notsupported"
+	case 70, 71:
+		return "err:block:preconfirmed"
+	case jsonrpc.InvalidParams:
+		switch fmt.Sprint(e.Data) {
+		case "missing field: contract_address":
+			return "err:missing-contract"
+		case "missing field: storage_keys":
+			return "err:missing-keys"
+		}
+	}
+	return fmt.Sprintf("err:other:%d:%v", e.Code, e.Data)
 }
